@@ -84,6 +84,12 @@ def run(ctx):
                     rep(f"k_hamiltonian raised {type(ex).__name__}: {ex}"); continue
                 if not np.array_equal(H0, ham.majorana_hamiltonian(l, c, u, J)):
                     rep("Bloch Hamiltonian at k=0 is not the real-space Majorana Hamiltonian of the cell"); continue
+                # the same with the bonds written as doubles and the very same arrays used for both Hamiltonians, in both orders of construction
+                uf = u.astype(np.float64); keep = uf.copy()
+                Hkf = ps.k_hamiltonian_generator(l, c, uf, J)
+                Hreal = ham.majorana_hamiltonian(l, c, uf, J)
+                if not (np.array_equal(Hkf(np.array([0.0, 0.0])), Hreal) and np.array_equal(Hreal, H0) and np.array_equal(uf, keep)):
+                    rep("with float64 bond variables shared between the two constructions, the Bloch Hamiltonian at k=0 differs from the real-space one (or the bonds were modified)"); continue
                 k = rng.uniform(-4, 4, size=2)
                 Hr = Hk(k)
                 if trial == 0:
@@ -91,7 +97,7 @@ def run(ctx):
                     for argname, base_arg in (("ujk", u), ("coloring", c), ("J", J), ("k", k)):
                         if base_arg is None:
                             continue
-                        for lab, av in variants.of_array(base_arg):
+                        for lab, av in variants.of_array(base_arg, floats=(argname != "coloring")):
                             keep = np.array(av).copy()
                             args = dict(ujk=u, coloring=c, J=J, k=k); args[argname] = av
                             try:
